@@ -527,6 +527,6 @@ def run(facts, rep, tier):
              "through them, while a fresh start indexes every arena slot directly.")
     from . import c20
     c20.rule_r3(facts, rep, "C04-R2b")
-    rep.rule("C04-R7", "= C18-R4: the cached search order is a total order on (rank, key), so it cannot depend on node ids, i.e. on which note was edited last.")
+    rep.rule("C04-R7", "= C18-R4: the cached search order is decided by what the listing shows (rank, key, then the rendered path text), never left to node ids, i.e. to which note was edited last.")
     from . import c18
     c18.rule_r4(facts, rep, "C04-R7")
